@@ -2,7 +2,8 @@
    version oracles [vok] / [vcmp]:
      C02  comparator spellings mean what they say            (npm_c02, npm_c02_bare)
      C05  shorthands = their documented intervals            (star_all, caret_interval,
-          tilde_interval, xrange_major, xrange_minor, hyphen_interval, or_union, and_inter)
+          tilde_interval, caret_major, caret_minor, tilde_major, tilde_minor
+          (partial bases, padPartial), xrange_major, xrange_minor, hyphen_interval, or_union, and_inter)
      C20  membership depends only on the place in the order  (npm_c20_eq, group convexity)
      C18  String() re-parses to the same range               (range_reparse)
    and the finding that "!=" can never be written (ne_rejected). *)
@@ -10,7 +11,7 @@ From Coq Require Import Lia.
 From Verif.Base Require Import Bytes GoNum Ord BytesFacts.
 From Verif.Eco.Npm Require Import DecFacts StrFacts.
 From Verif.Eco Require Import RangeCore RangeCoreFacts Iface.
-From Verif.Eco.Npm Require Import Version Range.
+From Verif.Eco.Npm Require Import Version Range VersionFacts.
 From Verif.Eco.Npm Require Entry.
 
 (* string literals are [list_ascii_of_string "..."]; normalise them to explicit lists *)
@@ -245,6 +246,68 @@ Proof.
   apply atoi_digits_bounds in E1, E2, E3. auto.
 Qed.
 
+(* ---------- padPartial ---------- *)
+
+Lemma count_c_app x a b : count_c x (a ++ b) = (count_c x a + count_c x b)%nat.
+Proof. unfold count_c. rewrite filter_app, app_length. reflexivity. Qed.
+
+Lemma take_drop (p : ascii -> bool) s : take_while p s ++ drop_while p s = s.
+Proof. induction s as [|c s IH]; [reflexivity|]. cbn. destruct (p c); [cbn; rewrite IH|]; reflexivity. Qed.
+
+Lemma take_while_forallb (p : ascii -> bool) s : forallb p (take_while p s) = true.
+Proof. induction s as [|c s IH]; [reflexivity|]. cbn. destruct (p c) eqn:E; [cbn; rewrite E, IH|]; reflexivity. Qed.
+
+Lemma count_digits_dot ds : forallb is_digit ds = true -> count_c "."%char ds = O.
+Proof.
+  induction ds as [|d ds IH]; [reflexivity|]. cbn [forallb]. intros H.
+  apply andb_true_iff in H. destruct H as [H1 H2].
+  unfold count_c in *. cbn [filter]. rewrite (digit_not "."%char d eq_refl H1). apply IH, H2.
+Qed.
+
+Lemma num_dot_count s d r : num_dot s = Some (d, r) -> count_c "."%char s = S (count_c "."%char r).
+Proof.
+  unfold num_dot. intros H.
+  pose proof (take_drop is_digit s) as TD. pose proof (take_while_forallb is_digit s) as TF.
+  destruct (take_while is_digit s) as [|d0 dr]; [discriminate|].
+  destruct (drop_while is_digit s) as [|c r']; [discriminate|].
+  destruct (ceqb c "."%char) eqn:E; [|discriminate]. apply ceqb_eq in E. subst c.
+  injection H as <- <-. rewrite <- TD, count_c_app, (count_digits_dot _ TF). reflexivity.
+Qed.
+
+Lemma trim_prefix_count x s :
+  ceqb "."%char x = false -> count_c "."%char (trim_prefix [x] s) = count_c "."%char s.
+Proof.
+  intros Hx. unfold trim_prefix. destruct (has_prefix [x] s) eqn:E; [|reflexivity].
+  destruct s as [|y s']; [discriminate|]. cbn [has_prefix] in E. rewrite andb_true_r in E.
+  apply ceqb_eq in E. subst y. cbn [length skipn]. unfold count_c. cbn [filter]. rewrite Hx. reflexivity.
+Qed.
+
+(* an accepted version text has at least two dots, so padPartial leaves it alone *)
+Lemma parse_core_two_dots t c : parse_core t = Some c -> (2 <= count_c "."%char t)%nat.
+Proof.
+  unfold parse_core. lits.
+  rewrite <- (trim_prefix_count "v"%char t eq_refl).
+  rewrite <- (trim_prefix_count "="%char (trim_prefix ["v"%char] t) eq_refl).
+  rewrite <- (trim_prefix_count "v"%char (trim_prefix ["="%char] (trim_prefix ["v"%char] t)) eq_refl).
+  destruct (num_dot _) as [[ma r1]|] eqn:E1; [|discriminate].
+  destruct (num_dot r1) as [[mi r2]|] eqn:E2; [|discriminate].
+  intros _. rewrite (num_dot_count _ _ _ E1), (num_dot_count _ _ _ E2). lia.
+Qed.
+
+Lemma pad_partial_full b : (2 <= count_c "."%char b)%nat -> pad_partial b = (b, 3%N).
+Proof.
+  intros H. unfold pad_partial. destruct (contains_any _ b); [reflexivity|].
+  destruct (count_c "."%char b) as [|[|n]]; try lia. reflexivity.
+Qed.
+
+Lemma pad_partial_plain b p w : pad_partial b = (p, w) -> plain b = true -> plain p = true.
+Proof.
+  unfold pad_partial. intros H Hb.
+  destruct (contains_any _ b); [injection H as <- _; exact Hb|].
+  destruct (count_c "."%char b) as [|[|n]]; injection H as <- _;
+    try exact Hb; rewrite plain_app, Hb; reflexivity.
+Qed.
+
 Section C05.
   Variable vok : bytes -> bool.
   Variable vcmp : bytes -> bytes -> comparison.
@@ -266,45 +329,72 @@ Section C05.
     rewrite Hlo, Hhi, andb_true_r. reflexivity.
   Qed.
 
-  (* the documented upper bound of ^M.m.p *)
-  Definition caret_upper (c : core) : bytes :=
-    if (major c =? 0)%Z then
-      if (minor c =? 0)%Z then ver3_0 0 0 (succ64 (patch c))
+  (* the documented upper bound of ^M[.m[.p]], [w] = number of components written *)
+  Definition caret_upper_w (w : N) (c : core) : bytes :=
+    if (major c =? 0)%Z && (1 <? w)%N then
+      if (minor c =? 0)%Z && (2 <? w)%N then ver3_0 0 0 (succ64 (patch c))
       else ver3_0 0 (succ64 (minor c)) 0
     else ver3_0 (succ64 (major c)) 0 0.
+  Definition caret_upper (c : core) : bytes := caret_upper_w 3 c.
 
+  Theorem caret_interval_gen b p w c v :
+    plain b = true -> pad_partial b = (p, w) -> parse_core p = Some c ->
+    vok (normalize c) = true -> vok (caret_upper_w w c) = true -> vok v = true ->
+    rcontains ("^"%char :: b) v = Some (ge_lt vcmp v (normalize c) (caret_upper_w w c)).
+  Proof.
+    intros Hp Hpad Hc Hlo Hhi Hv. cbn [r_contains Npm.Entry.r].
+    pose proof (pad_partial_plain b p w Hpad Hp) as Pp.
+    rewrite parse_range_plain; [| |discriminate].
+    - unfold parse_single_core. change (beq ("^"%char :: b) $"*") with
+        (ceqb "^"%char "*"%char && beq b []). change (ceqb "^"%char "*"%char) with false.
+      cbn [andb]. lits. cbn [has_prefix]. change (ceqb "^"%char "^"%char) with true. cbn [andb skipn].
+      unfold parse_caret, own_parse. rewrite Hpad, (trim_space_no_sp p (plain_no_sp p Pp)), Hc.
+      unfold caret_upper_w in *.
+      destruct ((major c =? 0)%Z && (1 <? w)%N); [destruct ((minor c =? 0)%Z && (2 <? w)%N)|];
+        rewrite Hv; f_equal; apply two_bounds; auto.
+    - cbn [plain forallb]. fold (plain b). rewrite Hp. reflexivity.
+  Qed.
+
+  (* full versions: ^M.m.p *)
   Theorem caret_interval b c v :
     plain b = true -> parse_core b = Some c ->
     vok (normalize c) = true -> vok (caret_upper c) = true -> vok v = true ->
     rcontains ("^"%char :: b) v = Some (ge_lt vcmp v (normalize c) (caret_upper c)).
   Proof.
-    intros Hp Hc Hlo Hhi Hv. cbn [r_contains Npm.Entry.r].
-    rewrite parse_range_plain; [| |discriminate].
-    - unfold parse_single_core. change (beq ("^"%char :: b) $"*") with
-        (ceqb "^"%char "*"%char && beq b []). change (ceqb "^"%char "*"%char) with false.
-      cbn [andb]. lits. cbn [has_prefix]. change (ceqb "^"%char "^"%char) with true. cbn [andb skipn].
-      unfold parse_caret, own_parse. rewrite (trim_space_no_sp b (plain_no_sp b Hp)), Hc.
-      unfold caret_upper in *.
-      destruct (major c =? 0)%Z; [destruct (minor c =? 0)%Z|]; rewrite Hv; f_equal; apply two_bounds; auto.
-    - cbn [plain forallb]. fold (plain b). rewrite Hp. reflexivity.
+    intros Hp Hc. apply (caret_interval_gen b b 3%N c v); auto.
+    apply pad_partial_full, (parse_core_two_dots b c Hc).
   Qed.
 
-  Definition tilde_upper (c : core) : bytes := ver3_0 (major c) (succ64 (minor c)) 0.
+  Definition tilde_upper_w (w : N) (c : core) : bytes :=
+    if (w =? 1)%N then ver3_0 (succ64 (major c)) 0 0
+    else ver3_0 (major c) (succ64 (minor c)) 0.
+  Definition tilde_upper (c : core) : bytes := tilde_upper_w 3 c.
+
+  Theorem tilde_interval_gen b p w c v :
+    plain b = true -> pad_partial b = (p, w) -> parse_core p = Some c ->
+    vok (normalize c) = true -> vok (tilde_upper_w w c) = true -> vok v = true ->
+    rcontains ("~"%char :: b) v = Some (ge_lt vcmp v (normalize c) (tilde_upper_w w c)).
+  Proof.
+    intros Hp Hpad Hc Hlo Hhi Hv. cbn [r_contains Npm.Entry.r].
+    pose proof (pad_partial_plain b p w Hpad Hp) as Pp.
+    rewrite parse_range_plain; [| |discriminate].
+    - unfold parse_single_core. change (beq ("~"%char :: b) $"*") with
+        (ceqb "~"%char "*"%char && beq b []). change (ceqb "~"%char "*"%char) with false.
+      cbn [andb]. lits. cbn [has_prefix]. change (ceqb "^"%char "~"%char) with false.
+      change (ceqb "~"%char "~"%char) with true. cbn [andb skipn].
+      unfold parse_tilde, own_parse. rewrite Hpad, (trim_space_no_sp p (plain_no_sp p Pp)), Hc.
+      unfold tilde_upper_w in *.
+      destruct (w =? 1)%N; rewrite Hv; f_equal; apply two_bounds; auto.
+    - cbn [plain forallb]. fold (plain b). rewrite Hp. reflexivity.
+  Qed.
 
   Theorem tilde_interval b c v :
     plain b = true -> parse_core b = Some c ->
     vok (normalize c) = true -> vok (tilde_upper c) = true -> vok v = true ->
     rcontains ("~"%char :: b) v = Some (ge_lt vcmp v (normalize c) (tilde_upper c)).
   Proof.
-    intros Hp Hc Hlo Hhi Hv. cbn [r_contains Npm.Entry.r].
-    rewrite parse_range_plain; [| |discriminate].
-    - unfold parse_single_core. change (beq ("~"%char :: b) $"*") with
-        (ceqb "~"%char "*"%char && beq b []). change (ceqb "~"%char "*"%char) with false.
-      cbn [andb]. lits. cbn [has_prefix]. change (ceqb "^"%char "~"%char) with false.
-      change (ceqb "~"%char "~"%char) with true. cbn [andb skipn].
-      unfold parse_tilde, own_parse. rewrite (trim_space_no_sp b (plain_no_sp b Hp)), Hc, Hv.
-      f_equal. apply two_bounds; auto.
-    - cbn [plain forallb]. fold (plain b). rewrite Hp. reflexivity.
+    intros Hp Hc. apply (tilde_interval_gen b b 3%N c v); auto.
+    apply pad_partial_full, (parse_core_two_dots b c Hc).
   Qed.
 End C05.
 
@@ -424,6 +514,138 @@ Section XRange.
     - destruct ds1; [contradiction|discriminate].
   Qed.
 End XRange.
+
+(* ---------- caret / tilde on partial versions (padPartial) ---------- *)
+
+Lemma contains_any_forallb chars s :
+  forallb (fun c => negb (existsb (ceqb c) chars)) s = true -> contains_any chars s = false.
+Proof.
+  unfold contains_any. induction s as [|c s IH]; [reflexivity|]. cbn [forallb existsb].
+  intros H. apply andb_true_iff in H. destruct H as [H1 H2].
+  apply negb_true_iff in H1. rewrite H1, (IH H2). reflexivity.
+Qed.
+
+Lemma digit_no_dash_plus c :
+  is_digit c = true -> negb (existsb (ceqb c) $"-+") = true.
+Proof. destruct c as [[] [] [] [] [] [] [] []]; vm_compute; auto. Qed.
+
+Lemma dec_0 : dec 0 = ["0"%char].
+Proof. reflexivity. Qed.
+
+Lemma normalize_triple x y z :
+  normalize {| major := Z.of_N x; minor := Z.of_N y; patch := Z.of_N z;
+               prerelease := []; build := [] |} = triple_text x y z.
+Proof.
+  unfold normalize. cbn [major minor patch prerelease build]. rewrite !dec_z_of_N, !app_nil_r.
+  rewrite triple_text_eq. reflexivity.
+Qed.
+
+Lemma pad_partial_one x : pad_partial (dec x) = (triple_text x 0 0, 1%N).
+Proof.
+  unfold pad_partial.
+  rewrite contains_any_forallb
+    by (apply (forallb_impl is_digit); [apply digit_no_dash_plus|apply dec_digits]).
+  rewrite (count_digits_dot _ (dec_digits x)). rewrite triple_text_eq, dec_0. reflexivity.
+Qed.
+
+Lemma pad_partial_two x y :
+  pad_partial (dec x ++ "."%char :: dec y) = (triple_text x y 0, 2%N).
+Proof.
+  unfold pad_partial.
+  rewrite contains_any_forallb.
+  - rewrite count_c_app. unfold count_c at 2. cbn [filter].
+    change (ceqb "."%char "."%char) with true. cbn [length]. fold (count_c "."%char (dec y)).
+    rewrite !(count_digits_dot _ (dec_digits _)). cbn [Nat.add].
+    rewrite triple_text_eq, dec_0. f_equal.
+    rewrite <- (app_assoc (dec x) ("."%char :: dec y) _). reflexivity.
+  - rewrite forallb_app. cbn [forallb].
+    rewrite !(forallb_impl is_digit _ _ digit_no_dash_plus (dec_digits _)). reflexivity.
+Qed.
+
+Section Partial.
+  Variable vok : bytes -> bool.
+  Variable vcmp : bytes -> bytes -> comparison.
+  Notation rcontains := (r_contains Npm.Entry.r vok vcmp).
+
+  Let core3 (x y : N) : core :=
+    {| major := Z.of_N x; minor := Z.of_N y; patch := Z.of_N 0; prerelease := []; build := [] |}.
+
+  Lemma plain_dec x : plain (dec x) = true.
+  Proof. apply digits_plain, dec_digits. Qed.
+
+  Lemma plain_dec2 x y : plain (dec x ++ "."%char :: dec y) = true.
+  Proof. rewrite plain_app. cbn [plain forallb]. fold (plain (dec y)). rewrite !plain_dec. reflexivity. Qed.
+
+  (* ^X := >=X.0.0 <(X+1).0.0-0, also for X = 0 *)
+  Theorem caret_major x v :
+    (x < two63)%N ->
+    vok (triple_text x 0 0) = true -> vok (ver3_0 (succ64 (Z.of_N x)) 0 0) = true -> vok v = true ->
+    rcontains ("^"%char :: dec x) v
+    = Some (ge_lt vcmp v (triple_text x 0 0) (ver3_0 (succ64 (Z.of_N x)) 0 0)).
+  Proof.
+    intros Hx Hlo Hhi Hv.
+    assert (E2 : caret_upper_w 1 (core3 x 0) = ver3_0 (succ64 (Z.of_N x)) 0 0).
+    { unfold caret_upper_w. change (1 <? 1)%N with false. rewrite andb_false_r. reflexivity. }
+    rewrite <- (normalize_triple x 0 0) in *. fold (core3 x 0) in *. rewrite <- E2 in *.
+    apply (caret_interval_gen vok vcmp (dec x) (triple_text x 0 0) 1%N); auto.
+    - apply plain_dec.
+    - apply pad_partial_one.
+    - apply parse_core_triple; auto; reflexivity.
+  Qed.
+
+  (* ^X.Y := >=X.Y.0 <(X+1).0.0-0 for X > 0;  ^0.Y := >=0.Y.0 <0.(Y+1).0-0 (so ^0.0 := <0.1.0-0) *)
+  Theorem caret_minor x y v :
+    (x < two63)%N -> (y < two63)%N ->
+    let hi := if (x =? 0)%N then ver3_0 0 (succ64 (Z.of_N y)) 0
+              else ver3_0 (succ64 (Z.of_N x)) 0 0 in
+    vok (triple_text x y 0) = true -> vok hi = true -> vok v = true ->
+    rcontains ("^"%char :: dec x ++ "."%char :: dec y) v
+    = Some (ge_lt vcmp v (triple_text x y 0) hi).
+  Proof.
+    intros Hx Hy hi Hlo Hhi Hv.
+    assert (E2 : caret_upper_w 2 (core3 x y) = hi).
+    { unfold caret_upper_w, hi. change (2 <? 2)%N with false. change (1 <? 2)%N with true.
+      rewrite andb_false_r, andb_true_r. cbn [major core3]. destruct x; reflexivity. }
+    rewrite <- (normalize_triple x y 0) in *. fold (core3 x y) in *. rewrite <- E2 in *.
+    apply (caret_interval_gen vok vcmp (dec x ++ "."%char :: dec y) (triple_text x y 0) 2%N); auto.
+    - apply plain_dec2.
+    - apply pad_partial_two.
+    - apply parse_core_triple; auto; reflexivity.
+  Qed.
+
+  (* ~X := >=X.0.0 <(X+1).0.0-0 *)
+  Theorem tilde_major x v :
+    (x < two63)%N ->
+    vok (triple_text x 0 0) = true -> vok (ver3_0 (succ64 (Z.of_N x)) 0 0) = true -> vok v = true ->
+    rcontains ("~"%char :: dec x) v
+    = Some (ge_lt vcmp v (triple_text x 0 0) (ver3_0 (succ64 (Z.of_N x)) 0 0)).
+  Proof.
+    intros Hx Hlo Hhi Hv.
+    assert (E2 : tilde_upper_w 1 (core3 x 0) = ver3_0 (succ64 (Z.of_N x)) 0 0) by reflexivity.
+    rewrite <- (normalize_triple x 0 0) in *. fold (core3 x 0) in *. rewrite <- E2 in *.
+    apply (tilde_interval_gen vok vcmp (dec x) (triple_text x 0 0) 1%N); auto.
+    - apply plain_dec.
+    - apply pad_partial_one.
+    - apply parse_core_triple; auto; reflexivity.
+  Qed.
+
+  (* ~X.Y := >=X.Y.0 <X.(Y+1).0-0 *)
+  Theorem tilde_minor x y v :
+    (x < two63)%N -> (y < two63)%N ->
+    vok (triple_text x y 0) = true -> vok (ver3_0 (Z.of_N x) (succ64 (Z.of_N y)) 0) = true ->
+    vok v = true ->
+    rcontains ("~"%char :: dec x ++ "."%char :: dec y) v
+    = Some (ge_lt vcmp v (triple_text x y 0) (ver3_0 (Z.of_N x) (succ64 (Z.of_N y)) 0)).
+  Proof.
+    intros Hx Hy Hlo Hhi Hv.
+    assert (E2 : tilde_upper_w 2 (core3 x y) = ver3_0 (Z.of_N x) (succ64 (Z.of_N y)) 0) by reflexivity.
+    rewrite <- (normalize_triple x y 0) in *. fold (core3 x y) in *. rewrite <- E2 in *.
+    apply (tilde_interval_gen vok vcmp (dec x ++ "."%char :: dec y) (triple_text x y 0) 2%N); auto.
+    - apply plain_dec2.
+    - apply pad_partial_two.
+    - apply parse_core_triple; auto; reflexivity.
+  Qed.
+End Partial.
 
 (* ---------- hyphen ranges ---------- *)
 
@@ -842,7 +1064,8 @@ Lemma caret_upper_doc t c :
      else ver3_0 (major c + 1) 0 0)%Z.
 Proof.
   intros H H1 H2 H3. apply parse_core_bounds in H. destruct H as (B1 & B2 & B3).
-  unfold caret_upper. rewrite !succ64_small by lia. reflexivity.
+  unfold caret_upper, caret_upper_w. change (1 <? 3)%N with true. change (2 <? 3)%N with true.
+  rewrite !andb_true_r, !succ64_small by lia. reflexivity.
 Qed.
 
 Lemma tilde_upper_doc t c :
@@ -850,7 +1073,8 @@ Lemma tilde_upper_doc t c :
   tilde_upper c = ver3_0 (major c) (minor c + 1) 0.
 Proof.
   intros H H2. apply parse_core_bounds in H. destruct H as (B1 & B2 & B3).
-  unfold tilde_upper. rewrite succ64_small by lia. reflexivity.
+  unfold tilde_upper, tilde_upper_w. change (3 =? 1)%N with false. cbv iota.
+  rewrite succ64_small by lia. reflexivity.
 Qed.
 
 (* ---------- end-to-end examples with the model's own version layer ---------- *)
@@ -876,9 +1100,24 @@ Proof. vm_compute. reflexivity. Qed.
    constraints ">=" (empty bound: never matches) and "=1.0.0" *)
 Example ex_op_space : self_contains $">= 1.0.0" $"1.0.0" = Some false.
 Proof. vm_compute. reflexivity. Qed.
-(* partial versions are accepted and contain nothing *)
-Example ex_partial : self_contains $"^1.2" $"1.2.0" = None /\ self_contains $"1.2" $"1.2.0" = Some false.
+(* bare partial versions are accepted and contain nothing; after caret / tilde they are padded *)
+Example ex_partial : self_contains $"^1.2" $"1.2.0" = Some true /\ self_contains $"1.2" $"1.2.0" = Some false.
 Proof. vm_compute. auto. Qed.
+Example ex_caret_partial :
+  self_contains $"^1" $"1.9.9" = Some true /\ self_contains $"^1" $"2.0.0-0" = Some false /\
+  self_contains $"^0" $"0.9.9" = Some true /\ self_contains $"^0" $"1.0.0-0" = Some false /\
+  self_contains $"^0.0" $"0.0.9" = Some true /\ self_contains $"^0.0" $"0.1.0-0" = Some false /\
+  self_contains $"^0.2" $"0.2.9" = Some true /\ self_contains $"^0.2" $"0.3.0-0" = Some false /\
+  self_contains $"^0.0.0" $"0.0.1-0" = Some false.
+Proof. vm_compute. repeat split. Qed.
+Example ex_tilde_partial :
+  self_contains $"~1" $"1.9.9" = Some true /\ self_contains $"~1" $"2.0.0-0" = Some false /\
+  self_contains $"~1.2" $"1.2.9" = Some true /\ self_contains $"~1.2" $"1.3.0-0" = Some false /\
+  self_contains $"~0" $"0.9.0" = Some true.
+Proof. vm_compute. repeat split. Qed.
+(* a '-' or '+' disables the padding: "^1.2-beta" is rejected *)
+Example ex_partial_pre : Range.parse_range (self_vok Npm.Entry.entry) $"^1.2-beta" = None.
+Proof. vm_compute. reflexivity. Qed.
 (* 64-bit wrap-around of the "+1": the upper bound is not a version and the range is empty *)
 Example ex_overflow :
   self_contains $"^9223372036854775807.0.0" $"9223372036854775807.0.0" = Some false.
@@ -895,6 +1134,10 @@ Print Assumptions npm_c02_bare.
 Print Assumptions star_all.
 Print Assumptions caret_interval.
 Print Assumptions tilde_interval.
+Print Assumptions caret_major.
+Print Assumptions caret_minor.
+Print Assumptions tilde_major.
+Print Assumptions tilde_minor.
 Print Assumptions xrange_major.
 Print Assumptions xrange_minor.
 Print Assumptions hyphen_interval.
